@@ -28,6 +28,17 @@ func VerifState(t Tube) string {
 type VerifRecv struct{ r *receiver }
 
 // VerifNewReceiver creates a receiver that expects frame number start next.
+// VerifBuffered returns the number of received, in-order bytes a reliable tube holds for its reader
+// right now (-1 for other tubes or while the receiver is busy).
+func VerifBuffered(t Tube) int {
+	v, ok := t.(*Reliable)
+	if !ok || !v.recvWindow.m.TryLock() {
+		return -1
+	}
+	defer v.recvWindow.m.Unlock()
+	return v.recvWindow.buffer.Len()
+}
+
 func VerifNewReceiver(start uint64) *VerifRecv {
 	r := newReceiver(logrus.WithField("verif", "recv"))
 	r.m.Lock()
